@@ -209,6 +209,25 @@ func (fr *Frame) resolveTarget(sc *Scope, mt ModTarget) []resolvedTarget {
 			}
 			return []resolvedTarget{rt}
 		}
+		if id, ok := e.Fun.(*EIdent); ok && id.Name == "boxedslice" && len(e.Args) == 1 {
+			// boxedslice(x): x is an interface value (any) holding a slice: the whole backing object of that
+			// slice (sort.Slice(x, less) permutes it). The dynamic type must be known at the call site.
+			b := fr.evalExpr(sc, e.Args[0])
+			if _, ok := b.T.Underlying().(*types.Interface); !ok || b.K != KNormal || len(b.C) != 2 {
+				cfail("boxedslice(%s): not an interface value", ExprString(e.Args[0]))
+			}
+			tag, ok := isIntLit(b.C[0])
+			if !ok {
+				cfail("boxedslice(%s): the dynamic type of the value is not known here", ExprString(e.Args[0]))
+			}
+			dt := fr.en.tagTypes[int(tag)]
+			sl, isSl := dt.Underlying().(*types.Slice)
+			if dt == nil || !isSl {
+				cfail("boxedslice(%s): the value is not a slice", ExprString(e.Args[0]))
+			}
+			hv := fr.loadBox(sc.st, b.C[1], dt)
+			return []resolvedTarget{{text: mt.Text, isRange: true, whole: true, obj: hv.Obj(), lo: IntT(0), hi: IntT(0), elemT: sl.Elem()}}
+		}
 		if id, ok := e.Fun.(*EIdent); ok && id.Name == "obj" && len(e.Args) == 1 {
 			// obj(s): the whole backing object of s
 			b := fr.evalExpr(sc, e.Args[0])
